@@ -535,12 +535,16 @@ def expected_struct_meaning(item, kind, fallible, cp, hint):
     return ('tuple', vals)
 
 
-def actual_struct_meaning(imp, fallible, existing):
+def actual_struct_meaning(imp, fallible, existing, with_lets=False):
     """what an impl's body does, read off its SEM summary; None when it is not of a recognised form"""
     blk = fn_block(imp)
     if blk is None:
         return None
     stmts = blk[1:]
+    if with_lets:
+        lets = tuple((sval(x[1]), sem_text(x[2]) if len(x) > 2 else '') for x in stmts if x[0] == 'let')
+        inner = actual_struct_meaning(['impl', imp[1], imp[2], ['fn', ['block'] + [x for x in stmts if x[0] != 'let']]], fallible, existing)
+        return None if inner is None else (('lets', lets, inner) if lets else inner)
     if existing:
         d = {}
         for st in stmts:
